@@ -36,7 +36,7 @@ EXPLANATION = __doc__
 ASSUMPTIONS = ['user closures, FromStr impls and third-party Parser impls are total and pure',
                'std collections/iterators behave as documented; allocation failure and stack exhaustion on adversarially deep parser trees are out of scope',
                'audit/panic_audit.json reasons were established by reading the code (value-level arithmetic is asserted there, not re-derived)']
-FLOORS = {'P.census': 64, 'P.grow': 28, 'P.str-index': 12, 'P.nonempty': 6, 'P.dead-arm': 1, 'P.exit': 3, 'I.invariant': 2, 'T.loops': 83, 'T.recursion': 9, 'G.group-flag': 3, 'U.purity': 21}
+FLOORS = {'P.census': 64, 'P.grow': 28, 'P.str-index': 12, 'P.nonempty': 6, 'P.dead-arm': 1, 'P.exit': 3, 'I.invariant': 3, 'T.loops': 83, 'T.recursion': 9, 'G.group-flag': 3, 'U.purity': 21}
 
 AUDIT = json.load(open(os.path.join(VERIF, 'audit/panic_audit.json')))['functions']
 
@@ -332,6 +332,28 @@ def invariant(ctx, cfg, fs):
             ok2 = bool(pans) and all(c.bb in reach and only_via_edge(a, s2.b, s2.target('None'), c.bb) for c in pans)
     ctx.ob('I.invariant', 'ParseAdjacent::eval:panic-only-without-first-item', ok2, 'the only explicit panic of ParseAdjacent::eval lies on the edge where first_item(meta) is None - the same condition check_invariants rejects: %s' % ok2, where=a.where(), cfg=cfg)
 
+    # ArgRangesIter: ParseAdjacent narrows the scope to `start..scope.end` for every start it is given, so a start
+    # beyond the end of the scope would slice the ledger with an inverted range
+    it = ctx.look(fs.one(r"^<args::inner::ArgRangesIter<'a> as std::iter::Iterator>::next$"))
+    somes = [i for i, k, st in it.stmts() if st['k'] == 'assign' and st['lhs'] == [0, []] and st['rv']['k'] == 'agg' and st['rv'].get('variant') == 'Some']
+    guards = []
+    for sw in switches(it):
+        if sw.kind != 'bool': continue
+        for r in sw.roots:
+            if r.kind == 'bin' and r.extra['op'] in ('Gt', 'Lt', 'Ge', 'Le'):
+                ka = provenance(it, r.extra['a'], r.site[0], r.site[1]); kb = provenance(it, r.extra['b'], r.site[0], r.site[1])
+                def is_cur(q): return (q.kind == 'param' and q.what == 'self' and q.path[-1:] == ['cur']) or (q.kind == 'bin' and q.extra['op'].startswith('Add') and q.path == ['0'])   # cur, or cur advanced by the previous iteration
+                def is_end(q): return q.kind == 'param' and q.what == 'self' and q.path[-2:] == ['scope', 'end']
+                if ka and kb and all(is_cur(q) for q in ka) and all(is_end(q) for q in kb):
+                    inside = {'Gt': False, 'Le': True, 'Lt': True, 'Ge': False}[r.extra['op']]      # cur <= end (or cur < end)
+                    if r.extra['op'] != 'Ge': guards.append((sw.b, sw.target(inside)))
+                elif ka and kb and all(is_end(q) for q in ka) and all(is_cur(q) for q in kb):
+                    inside = {'Lt': False, 'Ge': True, 'Gt': True, 'Le': False}[r.extra['op']]
+                    if r.extra['op'] != 'Le': guards.append((sw.b, sw.target(inside)))
+    ok3 = bool(somes) and bool(guards) and all(any(only_via_edge(it, g[0], g[1], s_) for g in guards) for s_ in somes)
+    ctx.ob('I.invariant', 'ArgRangesIter::next:start-within-scope', ok3,
+           'every start position ArgRangesIter yields was compared with the end of the current scope first (%d yield site(s), %d guard(s)): %s' % (len(somes), len(guards), ok3), where=it.where(), cfg=cfg)
+
 FINITE_ITER = re.compile(r'^<(&mut )?(std::slice::Iter(Mut)?<|std::vec::IntoIter<|std::vec::Drain<|std::str::Chars<|std::str::CharIndices<|std::str::Split|std::str::Lines|std::ops::Range<|std::ops::RangeInclusive<|'
                          r'std::iter::(Enumerate|Zip|Rev|Filter|FilterMap|Map|Copied|Cloned|Skip|Take|TakeWhile|SkipWhile|Chain|Peekable|Flatten|FlatMap)<|std::option::(Iter|IntoIter)<|'
                          r'std::collections::|std::boxed::Box<dyn std::iter::ExactSizeIterator|std::env::ArgsOs|std::array::IntoIter<|core::str::|std::slice::|std::vec::|std::str::|std::string::Drain)')
@@ -417,6 +439,42 @@ def loops(ctx, cfg, fs):
                 and 'cur' in place_fields(op_place(st['rv']['a']) or [0, []])]
         ok = bool(bes) and bool(incs) and all(any(b.dominates(i, s_) or i == s_ for i in incs) for (s_, h) in bes)
         ctx.ob('T.loops', '%s|variant:cursor+1' % short(b.path), ok, '%s: every way around the loop increments the cursor by one: %s' % (short(b.path), ok), where=b.where(), cfg=cfg)
+    # Splitter: the word scanner stops BEFORE a separator and leaves it at the front of the remaining input, so every
+    # character that ends a word must be one the prefix handlers at the top of next() consume - otherwise the next
+    # call yields an empty word without shortening the input, forever
+    sp = ctx.look(fs.one(r"^<buffer::splitter::Splitter<'a> as std::iter::Iterator>::next$"))
+    ci = [c for c in sp.calls() if c.is_(r'CharIndices.*Iterator>::next$')]
+    handled = set()
+    for c in sp.calls():
+        if c.is_(r'str::<impl str>::strip_prefix::<char>$'):
+            rs = provenance(sp, c.args[0], c.bb, 'term')
+            if rs and all(r.kind == 'param' and r.what == 'self' and r.path == ['input'] for r in rs):
+                k_ = op_const(c.args[1])
+                if k_ and 'char' in k_: handled.add(k_['char'])
+    enders = set(); other = []
+    if len(ci) == 1:
+        def is_chr(op, bb, ix):
+            rs = provenance(sp, op, bb, ix, through=None)
+            return bool(rs) and all(r.kind == 'call' and r.call.bb == ci[0].bb and r.path[-1:] == ['1'] for r in rs)
+        loop_blocks = reachable_edges(sp, ci[0].target) if ci[0].target is not None else set()
+        for sw in switches(sp):
+            if sw.b not in loop_blocks: continue
+            if sw.kind == 'bool':
+                for r in sw.roots:
+                    if r.kind == 'bin' and r.extra['op'] in ('Eq', 'Ne'):
+                        for (x, y) in ((r.extra['a'], r.extra['b']), (r.extra['b'], r.extra['a'])):
+                            k_ = op_const(y)
+                            if k_ and 'char' in k_ and is_chr(x, r.site[0], r.site[1]): enders.add(k_['char'])
+                    elif r.kind == 'call' and any(is_chr(a, r.call.bb, 'term') for a in r.call.args):
+                        other.append(short(r.call.name))
+                    elif r.kind == 'bin' and (is_chr(r.extra['a'], r.site[0], r.site[1]) or is_chr(r.extra['b'], r.site[0], r.site[1])):
+                        other.append('comparison %s' % r.extra['op'])
+            elif sw.kind == 'int' and is_chr(sp.term(sw.b)['op'], sw.b, 'term'):
+                enders |= {v for v in sw.edges if isinstance(v, int)}
+    ok = len(ci) == 1 and bool(enders) and enders <= handled and not other
+    ctx.ob('T.loops', 'Splitter::next|variant:word-end-is-a-handled-separator', ok,
+           'Splitter::next: a word ends only at %s; the separators consumed at the front of the input are %s; other tests of the scanned character: %s' % (
+               sorted(map(chr, enders)), sorted(map(chr, handled)), other or 'none'), where=sp.where(), cfg=cfg)
     # parse_option variant (strict progress + *len update) is checked by C06.K3; require it here too
     cc = fs.one(r'^error::Message::can_catch$')
     enum, table = enum_const_table(cc)
